@@ -108,7 +108,7 @@ func isErrorExit(ret *ssa.Return) bool {
 	if len(ret.Results) == 0 {
 		return false
 	}
-	ev := ret.Results[len(ret.Results)-1]
+	ev := resOf(ret, len(ret.Results)-1)
 	if !types.Identical(ev.Type(), types.Universe.Lookup("error").Type()) {
 		return false
 	}
@@ -256,7 +256,7 @@ func (c *Ctx) wrapperReads(fn *ssa.Function, seen map[*ssa.Function]bool) bool {
 		return false
 	}
 	for _, ret := range returnsOf(fn) {
-		if len(ret.Results) > 0 && ret.Results[len(ret.Results)-1] == ev {
+		if len(ret.Results) > 0 && resOf(ret, len(ret.Results)-1) == ev {
 			return true
 		}
 	}
